@@ -42,6 +42,9 @@ pub fn main_campaign() -> SimCampaign {
             w_ack: 5,
             w_settle: 2,
             p_persistent: 75,
+            // retained replays occupy the window like any forward (their redelivery is excepted,
+            // the ordinary forwards behind them are not)
+            p_retain: 20,
             p_manual_ack: 60,
             max_burst: 150,
             qos_weights: [2, 4, 2],
@@ -50,14 +53,15 @@ pub fn main_campaign() -> SimCampaign {
         },
         flags: Flags {
             session: true,
+            retained: true,
             delivery: true,
             acks: true,
             window: true,
             avoid: avoid_all(),
             ..Flags::default()
         },
-        quick: 20000,
-        thorough: 100_000,
+        quick: 40000,
+        thorough: 800000,
         nontrivial,
         probes: vec![],
         // steer: client 0 is persistent with manual acks and goes through at least one
